@@ -557,25 +557,29 @@ def _facet_friendly(prog, rnd, facet):
 _FS_CACHE = None
 
 
-def enumerate_formspace(chk=None):
+def enumerate_formspace(chk=None, facets=False):
     """All valid abstract cases of FormSpace.tla, as TLC enumerates them."""
     global _FS_CACHE
     if _FS_CACHE is None:
         d = tlc.stage("formspace", ["FormSpace"], {"FormSpace.cfg": ""})
         r = tlc.run(d, "FormSpace", cfg="FormSpace.cfg", workers=1, timeout=600)
-        cases = []
+        cases, fcases, counts = [], [], {}
         for s_ in r.printed:
             v = tlc.parse_tla(s_)
             if v[0] == "CASE":
                 cases.append(v[1])
-        n = [tlc.parse_tla(s_)[1] for s_ in r.printed if '"NCASES"' in s_]
-        if not cases or not n or n[0] != len(cases):
+            elif v[0] == "FCASE":
+                fcases.append(v[1])
+            elif v[0] in ("NCASES", "NFCASES"):
+                counts[v[0]] = v[1]
+        if not cases or counts.get("NCASES") != len(cases) or counts.get("NFCASES") != len(fcases):
             raise MachineryError("FormSpace enumeration failed:\n" + "\n".join(r.out.splitlines()[-20:]))
         cases.sort(key=lambda c: json.dumps(c, sort_keys=True))
-        _FS_CACHE = cases
+        fcases.sort(key=lambda c: json.dumps(c, sort_keys=True))
+        _FS_CACHE = (cases, fcases)
     if chk is not None:
-        chk.add(formspace_cases=len(_FS_CACHE))
-    return _FS_CACHE
+        chk.add(formspace_cases=len(_FS_CACHE[0]) + len(_FS_CACHE[1]))
+    return _FS_CACHE[1] if facets else _FS_CACHE[0]
 
 
 _NDOF = {"P1": 1, "P2": 3, "P3": 6, "DG0": 0.4, "DG1": 1, "vP1": 2.5, "vP2": 7, "symP1": 3, "TH": 8, "RT1": 1, "N1": 1.5,
@@ -586,8 +590,9 @@ _CELLW = {"interval": 0.3, "triangle": 1, "quadrilateral": 2, "tetrahedron": 3, 
 def case_cost(c):
     """Rough relative cost of evaluating the case in TLC (dofs^2 x points)."""
     r = {"exact": 2.0, "custom": 1.0, "vertex": 1.0}[c["rule"]]
-    rank2 = 0.3 if c["term"] in ("load", "gradload", "energy", "xint") else 1.0
-    return (_NDOF[c["elem"]] ** 2) * _CELLW[c["cell"]] * r * rank2
+    rank2 = 0.3 if c["term"] in ("load", "gradload", "energy", "xint", "nload", "fload", "area", "jumpload") else 1.0
+    side = 4 if c.get("measure") == "dS" else 1
+    return (_NDOF[c["elem"]] ** 2) * _CELLW.get(c["cell"], 6) * r * rank2 * side
 
 
 def sample_cases(cases, n, seed, must=lambda c: True, max_cost=None):
@@ -600,7 +605,7 @@ def sample_cases(cases, n, seed, must=lambda c: True, max_cost=None):
         pool.sort(key=lambda c: case_cost(c) > max_cost)        # stable: cheap ones first, order otherwise random
     seen, chosen, rest = set(), [], []
     for c in pool:
-        feats = {(k, v) for k, v in c.items()} | {("et", c["elem"], c["term"]), ("cg", c["cell"], c["geom"]),
+        feats = {(k, v) for k, v in c.items()} | {("et", c["elem"], c["term"]), ("cg", c["cell"], c.get("geom", c.get("measure"))),
                                                    ("cr", c["cell"], c["rule"])}
         if feats - seen and len(chosen) < n:
             chosen.append(c)
@@ -612,6 +617,8 @@ def sample_cases(cases, n, seed, must=lambda c: True, max_cost=None):
 
 
 def case_label(c):
+    if "measure" in c:
+        return "/".join(str(c[k]) for k in ("cell", "elem", "term", "measure", "rule"))
     return "/".join(str(c[k]) for k in ("cell", "elem", "term", "rule", "geom", "xdeg"))
 
 
@@ -737,3 +744,73 @@ def replay(chk, path):
     recs = run_items(chk, [it], nworkers=1)
     nz = report(chk, [it], recs)
     chk.add(distinct_nontrivial=len(nz), rule="replay of one recorded case")
+
+
+def interior_pair(prog: Program, rnd: random.Random, fplus: int):
+    """Two P1/Q1 cells that really share a facet: '+' cell with local facet fplus, '-' cell the neighbour
+    across it in a random local numbering.  Returns (fminus, nodes_plus, nodes_minus, vertex_match) where
+    vertex_match[i] = local vertex of '-' coinciding with the i-th vertex of facet fplus of '+'."""
+    import itertools
+
+    geom, topo = ref_geometry(prog.cell)
+    td = prog.tdim
+    nv = len(topo[0])
+    xp = make_geometry(prog, "affine", rnd, facet=fplus)
+    if len(xp) != nv:
+        raise OutOfModel("interior-facet pairs are built for degree-1 coordinate elements only")
+    F = list(topo[td - 1][fplus])
+    simplex = prog.cell in ("interval", "triangle", "tetrahedron")
+    if simplex:
+        opp = [v for v in range(nv) if v not in F][0]
+        a = xp[F[0]]
+        dprime = [a[c] + sum(xp[v][c] - a[c] for v in F[1:]) - (xp[opp][c] - a[c]) for c in range(td)]
+        W = [xp[v] for v in F] + [dprime]
+        perm = list(range(nv))
+        rnd.shuffle(perm)                       # W[i] goes to local slot perm[i]
+        xm = [None] * nv
+        for i, slot in enumerate(perm):
+            xm[slot] = W[i]
+        fminus = perm[nv - 1]                   # facet opposite the new vertex
+        match = [perm[i] for i in range(len(F))]
+        return fminus, xp, xm, match
+    # hypercubes: neighbour by translation, then a random symmetry of the reference cube renumbers it
+    Xf = [geom[v] for v in F]
+    k = [c for c in range(td) if all(abs(p[c] - Xf[0][c]) < 1e-12 for p in Xf)][0]
+    sgn = 1 if Xf[0][k] > 0.5 else -1
+    b = xp[0]
+    cols = []
+    for c in range(td):
+        e = [1 if a_ == c else 0 for a_ in range(td)]
+        vi = [i for i in range(nv) if all(abs(geom[i][a_] - e[a_]) < 1e-12 for a_ in range(td))][0]
+        cols.append([xp[vi][g] - b[g] for g in range(td)])
+    axes = list(range(td))
+    rnd.shuffle(axes)
+    flips = [rnd.random() < 0.5 for _ in range(td)]
+
+    def g(X):
+        Y = [X[axes[a_]] for a_ in range(td)]
+        return [1 - y if fl else y for y, fl in zip(Y, flips)]
+
+    def vindex(X):
+        return [i for i in range(nv) if all(abs(geom[i][a_] - X[a_]) < 1e-12 for a_ in range(td))][0]
+
+    xm = [None] * nv
+    newidx = {}
+    for i in range(nv):
+        X = [int(round(c)) for c in geom[i]]
+        Xn = list(X)
+        Xn[k] += sgn
+        phys = [b[g_] + sum(cols[c][g_] * Xn[c] for c in range(td)) for g_ in range(td)]
+        j = vindex(g(X))
+        xm[j] = phys
+        newidx[i] = j
+    # the shared facet of the neighbour is X_k = (0 if sgn>0 else 1) in its own frame
+    shared = [i for i in range(nv) if int(round(geom[i][k])) == (0 if sgn > 0 else 1)]
+    sset = sorted(newidx[i] for i in shared)
+    fminus = [f for f, vs in enumerate(topo[td - 1]) if sorted(vs) == sset][0]
+    match = []
+    for v in F:
+        X = [int(round(c)) for c in geom[v]]
+        X[k] -= sgn                                # same physical point in the neighbour's frame
+        match.append(newidx[vindex(X)])
+    return fminus, xp, xm, match
